@@ -264,7 +264,13 @@ class C18(core.Check):
         cnt = {'extract_docs': 1, 'listed_calls': len(exp)}
         for c in ctxs:
             cnt['ctx_' + c] = 1
-        (t, p), err = tex.run(src, extr=extr, pack=case['pack'], lang=case['lang'], nosp=case['nosp'])
+        extra = {}
+        if case['s'] % 3 == 0:
+            # a definitions text that itself calls listed macros: its output (also extracted parts) is discarded
+            first = extr.split(',')[0]
+            extra['defs'] = '\\newcommand{\\ydefd}{x}\n\\%s{hdefaQ hdefbQ}\n\\zzfoo{\\%s{hdefcQ}}\n' % (first, first)
+            cnt['extract_with_defs'] = 1
+        (t, p), err = tex.run(src, extr=extr, pack=case['pack'], lang=case['lang'], nosp=case['nosp'], **extra)
         obs = [(c, q) for c, q in zip(t, p) if not c.isspace()]
         want = [(c, off + i + 1) for w, off in exp for i, c in enumerate(w)]
         detail = dict(src=src, extr=extr, plain=t, want=''.join(c for c, _ in want), stderr=err)
@@ -317,6 +323,7 @@ class C18(core.Check):
         if rnd.random() < .35:
             skip = rnd.choice([re.escape(rnd.choice(names)), r'.*b\.tex', r'sub/.*', r'[ac]\.tex', 'nomatch'])
         d = tempfile.mkdtemp(dir=self.tmp)
+        with_define = False
         try:
             os.makedirs(os.path.join(d, 'sub'), exist_ok=True)
             for f in names:
@@ -331,6 +338,12 @@ class C18(core.Check):
                 with open(os.path.join(d, f), 'w') as fp:
                     fp.write('\n'.join(body) + '\n')
             cmd = [env.PY, '-m', 'yalafi.shell', '--no-config', '--include', '--list-unknown']
+            if rnd.random() < .3:
+                # definitions file that itself inputs a file: not part of the closure of the given files
+                with open(os.path.join(d, 'defs.tex'), 'w') as fp:
+                    fp.write('\\newcommand{\\ydefd}{x}\n\\input{%s}\n' % names[-1][:-4])
+                cmd += ['--define', 'defs.tex']
+                with_define = True
             if skip:
                 cmd += ['--skip', skip]
             cmd += start
@@ -346,6 +359,8 @@ class C18(core.Check):
         cnt = {'include_runs': 1, 'include_' + case['kind']: 1, 'edges': sum(len(v) for v in files.values())}
         if skip:
             cnt['with_skip'] = 1
+        if with_define:
+            cnt['with_define_file'] = 1
         if any(f in files[f] for f in files):
             cnt['with_self_inclusion'] = 1
         detail = dict(files=files, start=start, skip=skip, stderr=err[-1500:], want=want, exit=pr.returncode)
@@ -373,7 +388,8 @@ class C18(core.Check):
                     obs=dict(files=files, start=start, skip=skip, checked=got))
 
     def quotas(self, tier):
-        q = {'extract_docs': 2000, 'listed_calls': 5000, 'include_runs': 100, 'with_skip': 20,
+        q = {'extract_docs': 2000, 'listed_calls': 5000, 'include_runs': 100, 'with_skip': 20, 'extract_with_defs': 300,
+             'with_define_file': 15,
              'with_self_inclusion': 20, 'include_rand': 30}
         for c in ('top', 'unkarg', 'unkenv', 'knownenv', 'item', 'comment', 'skip', 'verb', 'verbatim', 'group',
                   'cell', 'usermacarg'):
